@@ -23,6 +23,11 @@ REQ_ACTIONS = {"lrld": "lrld", "next": "lrld-next", "prev": "lrld-prev"}
 
 
 def req_text(q):
+    """The action as written in the file; "text" = another documented spelling of the same request (docs/config.adoc:
+    'The prev/next variants can be used with shortened names of lrpv and lrnx').  The monitor parameters say which
+    request the key makes (k), never how it is spelled."""
+    if q.get("text"):
+        return q["text"]
     return "(lrld-num %d)" % q["n"] if q["k"] == "num" else REQ_ACTIONS[q["k"]]
 
 
@@ -72,6 +77,9 @@ R1 = [{"key": "r", "k": "lrld", "n": 0}]
 R4 = [{"key": "r", "k": "lrld", "n": 0}, {"key": "n", "k": "next", "n": 0}, {"key": "p", "k": "prev", "n": 0},
       {"key": "m", "k": "num", "n": 3}]
 
+# the documented short spellings of the cycling requests
+R4S = [dict(q, text={"next": "lrnx", "prev": "lrpv"}.get(q["k"])) for q in R4]
+
 ALL_KINDS = ["N", "O", "X", "S", "S2", "R", "R2", "R3", "missing", "unreadable"]
 
 
@@ -102,12 +110,16 @@ def family(tier):
                      "extra": "(defvirtualkeys w1 z w2 lsft)"},
                     kinds=["N", "unreadable"] if q else ALL_KINDS, settle=30, pre=3 if q else 5, post=2 if q else 4))
     # three files, all request kinds (F3)
-    fam.append(pair("files3", ["a"], R4,
+    # quick explores the short spellings lrnx / lrpv (the long ones: scenarios cycle3, failed_next_then_next); thorough both
+    fam.append(pair("files3", ["a"], R4S if q else R4,
                     {"layers": [("l0", ["a"])]}, {"layers": [("n0", ["1"])]},
                     nfiles=3, start=["O", "N", "N"], kinds=["N", "S"] if q else ["N", "O", "S", "X"],
                     maxatt=2, pre=2 if q else 3, post=2, env=[],
                     env_reqs=["r", "n", "p"] if q else None))
     if not q:
+        fam.append(pair("files3s", ["a"], R4S,
+                        {"layers": [("l0", ["a"])]}, {"layers": [("n0", ["1"])]},
+                        nfiles=3, start=["O", "N", "N"], kinds=["N", "O", "S"], maxatt=2, pre=3, post=2, env=[]))
         # the one-second fallback: an unmod key is no NormalKey, so with it held kanata counts idle ticks and the reload
         # is applied with an output key down.  ticks_since_idle needs its real range here (cap 1002); the environment
         # does not interrupt the idle second in the middle
@@ -600,11 +612,11 @@ def run(tier, seed):
         check_texts(p, pwd)
         mod, keys, age = gen_mc(p, pwd, tier)
         t0 = time.time()
-        r = run_tlc(pwd, mod, workers=2 if tier == "quick" else 3, timeout=3000 if tier != "quick" else 900, heap="4g")
+        r = run_tlc(pwd, mod, workers=2, timeout=3000 if tier != "quick" else 900, heap="4g")
         return pwd, mod, age, r, t0
     build_harness()
     cfgdesc.keytable()
-    with ThreadPoolExecutor(max_workers=3 if tier == "quick" else 2) as ex:      # <= 6 TLC worker threads in total
+    with ThreadPoolExecutor(max_workers=2) as ex:      # <= 4 TLC worker threads in total
         explored = list(ex.map(explore, fam))
     for p, (pwd, mod, age, r, t0) in zip(fam, explored):
         if r["rc"] == 124:
@@ -796,6 +808,16 @@ def scenario_pairs():
     for key in ["n", "n", "n", "p", "p", "p", "m", "r", "p", "n"]:
         cyc += [["d", c(key)], ["t", 2], ["u", c(key)], ["t", 6], ["d", c("a")], ["t", 2], ["u", c("a")], ["t", 4]]
     add("cycle3", p, cyc + [["t", 30]])
+    # the same with the short spellings lrnx / lrpv, and from the other end (prev first: wrap-around 0 -> 2)
+    p = pair("s_cycs", ["a"], R4S, {"layers": [("l0", ["a"])]}, {"layers": [("n0", ["1"])]}, nfiles=3, start=["O", "N", "O"])
+    add("cycle3_short", p, cyc + [["t", 30]])
+    cyc2 = []
+    for key in ["p", "p", "n", "n", "n", "m", "p", "r"]:
+        cyc2 += [["d", c(key)], ["t", 2], ["u", c(key)], ["t", 6], ["d", c("a")], ["t", 2], ["u", c("a")], ["t", 4]]
+    add("cycle3_short_prev_first", pair("s_cycs", ["a"], R4S, {"layers": [("l0", ["a"])]}, {"layers": [("n0", ["1"])]},
+                                        nfiles=3, start=["O", "N", "O"]), cyc2 + [["t", 30]])
+    add("cycle3_prev_first", pair("s_cyc", ["a"], R4, {"layers": [("l0", ["a"])]}, {"layers": [("n0", ["1"])]},
+                                  nfiles=3, start=["O", "N", "O"]), cyc2 + [["t", 30]])
     # a request that fails, the file is repaired later, no new request: nothing may be loaded
     p = pair("s_fix", ["a", "b"], R1, {"layers": [("l0", ["a", "b"])]}, {"layers": [("n0", ["1", "2"])]})
     add("repaired_later", p, [["w", 0, "S"], ["d", r], ["t", 2], ["u", r], ["t", 10], ["w", 0, "N"], ["t", 1200],
